@@ -1,6 +1,6 @@
 #!/bin/bash
 # Sequentially confirm every seeded change that has no recorded full verdict yet.
-for d in /verif/seeded/*/; do
+for d in /verif/seeded/C*/; do
   id=$(basename $d)
   [ -f $d/confirm.txt ] && continue
   [ -f $d/patch.diff ] || continue
